@@ -94,6 +94,13 @@ def check(case, results):
             v.append({"oracle": "C02.no-exception", "detail": ev["exc"] + "\n" + ev.get("tb", ""), "op": ev["i"]})
         before = stats.get("conservation_series", 0)
         traj.conservation_oracle(h, m, phys, v, stats, kind, "C02")
+        # the trajectory handed to the user is the engine's records in the script's units (exactly so in molecules)
+        traj.output_oracle(h, lambda apos: None, phys, m.ns, m.nc, v, stats, "C02")
+        if not v and h.outputs and kind != "euler" and phys["us"]["quantity"] == "molecule":
+            o_ = h.outputs[-1][1]
+            if o_["data"] != o_["raw_x"]:
+                v.append({"oracle": "C02.conserved", "detail": "trajectory.data differs from the engine's integer records "
+                          "although the script's quantity unit is the molecule"})
         if h.outputs:
             n = h.outputs[-1][1]["n"]
             stats["samples_checked"] = stats.get("samples_checked", 0) + n
